@@ -26,8 +26,8 @@ import (
 type Acct struct {
 	ID        uint `gorm:"primaryKey"`
 	Name      string
-	Age       int64
-	Email     string
+	Age       int64  `gorm:"default:0"`  // literal zero defaults: nothing changes on the tree as it is
+	Email     string `gorm:"default:''"` // (the column is inserted and, under UpdateAll, updated like any other)
 	CreatedAt time.Time
 	UpdatedAt time.Time
 	DeletedAt gorm.DeletedAt
@@ -85,6 +85,7 @@ type Fin struct {
 	OCWhere  *int64 `json:"oc_where,omitempty"`
 	OCTarget *int64 `json:"oc_target,omitempty"`
 	Inline []Cond   `json:"inline,omitempty"`
+	Vals   []Rec    `json:"vals,omitempty"` // save_slice: Save(&[]Acct{...})
 }
 type Input struct {
 	Tbl      []Rec `json:"tbl"`
@@ -95,6 +96,7 @@ type Input struct {
 }
 type Obs struct {
 	Ret    Rec    `json:"ret"`
+	Rets   []Rec  `json:"rets"` // save_slice: the caller's slice after the call (keys handed back)
 	RA     int64  `json:"ra"`
 	Err    string `json:"err"`
 	Writes int64  `json:"writes"`
@@ -296,6 +298,18 @@ func run(e *env, in Input) Obs {
 	case "save":
 		dest = toAcct(*in.Fin.Val)
 		res = tx.Save(&dest)
+	case "save_slice":
+		sl := make([]Acct, len(in.Fin.Vals))
+		for i, v := range in.Fin.Vals {
+			sl[i] = toAcct(v)
+		}
+		res = tx.Save(&sl)
+		for _, a := range sl {
+			o.Rets = append(o.Rets, fromAcct(a))
+		}
+		if len(sl) > 0 {
+			dest = sl[len(sl)-1]
+		}
 	case "create_oc":
 		dest = toAcct(*in.Fin.Val)
 		oc := clause.OnConflict{}
@@ -417,6 +431,8 @@ func gFin(f Fin) string {
 	switch f.Kind {
 	case "save":
 		return lib.App("FSave", gRec(*f.Val))
+	case "save_slice":
+		return lib.App("FSaveSlice", lib.ListOf(f.Vals, gRec))
 	case "create_oc":
 		rule := "RNothing"
 		switch f.Rule {
@@ -439,7 +455,7 @@ func gFin(f Fin) string {
 }
 func term(in Input, o Obs) string {
 	return lib.App("mk_case", lib.ListOf(in.Tbl, gRec), lib.Z(in.Now), lib.ListOf(in.Chain, gCel), gFin(in.Fin),
-		gRec(o.Ret), lib.Z(o.RA), lib.Bool(o.Err != ""), lib.Z(o.Writes), lib.ListOf(o.Tbl, gRec),
+		gRec(o.Ret), lib.ListOf(o.Rets, gRec), lib.Z(o.RA), lib.Bool(o.Err != ""), lib.Z(o.Writes), lib.ListOf(o.Tbl, gRec),
 		lib.Bool(o.Setup != ""))
 }
 
@@ -654,6 +670,8 @@ func sessionEl(r *lib.Rng) Cel {
 
 // genStep draws one step. known=true forces a Session/WithContext after an Attrs/Assign (the shape
 // of the fixed finding clone-drops-attrs); otherwise session elements go to any chain position.
+var lastSlice []Rec // what the previous save_slice step of this history handed back
+
 func genStep(r *lib.Rng, state []Rec, now int64, edge, known bool) Input {
 	in := Input{Tbl: append([]Rec(nil), state...), Now: now, NoReturn: r.Chance(1, 4)}
 	k := r.Intn(100)
@@ -661,6 +679,67 @@ func genStep(r *lib.Rng, state []Rec, now int64, edge, known bool) Input {
 		k = 50 + r.Intn(50)
 	}
 	switch {
+	case k < 10 && !known:
+		// Save of a slice mixing keyed (stored or fresh keys, distinct) and zero-key elements in any
+		// order; RETURNING dialect only (without RETURNING the key back-fill of mixed slices is C03's
+		// documented limitation)
+		in.NoReturn = false
+		if len(lastSlice) > 0 && r.Bool() {
+			// saving the slice gorm handed back once more (possibly edited)
+			vals := append([]Rec(nil), lastSlice...)
+			if r.Bool() {
+				i := r.Intn(len(vals))
+				vals[i].Name = lib.Pick(r, names)
+			}
+			in.Fin = Fin{Kind: "save_slice", Vals: vals}
+			break
+		}
+		n := r.Range(2, 4)
+		used := map[int64]bool{}
+		var vals []Rec
+		for i := 0; i < n; i++ {
+			v := genValue(r, state, edge)
+			switch {
+			case r.Chance(2, 5):
+				v.ID = 0
+			case r.Chance(1, 4):
+				v.ID = int64(20 + r.Intn(5)) // a fresh key far from the assigned ones
+			}
+			if v.ID != 0 && used[v.ID] {
+				v.ID = 0
+			}
+			used[v.ID] = true
+			vals = append(vals, v)
+		}
+		// domain: a caller-given key must not be the key the database assigns to an earlier zero-key
+		// element of the same statement (max+1 at that moment) — otherwise the caller's own elements collide
+		for tries := 0; tries < 20; tries++ {
+			maxk, assigned, clash := int64(0), map[int64]bool{}, -1
+			for _, row := range state {
+				if row.ID > maxk {
+					maxk = row.ID
+				}
+			}
+			for i, v := range vals {
+				if v.ID == 0 {
+					maxk++
+					assigned[maxk] = true
+				} else {
+					if assigned[v.ID] {
+						clash = i
+						break
+					}
+					if v.ID > maxk {
+						maxk = v.ID
+					}
+				}
+			}
+			if clash < 0 {
+				break
+			}
+			vals[clash].ID = 0
+		}
+		in.Fin = Fin{Kind: "save_slice", Vals: vals}
 	case k < 25:
 		v := genValue(r, state, edge)
 		in.Fin = Fin{Kind: "save", Val: &v}
@@ -761,9 +840,29 @@ func findRow(t []Rec, id int64) *Rec {
 	return nil
 }
 
+func slicePattern(in Input) string {
+	var sb strings.Builder
+	for _, v := range in.Fin.Vals {
+		switch row := findRow(in.Tbl, v.ID); {
+		case v.ID == 0:
+			sb.WriteString("z")
+		case row == nil:
+			sb.WriteString("f")
+		case row.Del != nil:
+			sb.WriteString("d")
+		default:
+			sb.WriteString("s")
+		}
+	}
+	return sb.String()
+}
+
 func shape(in Input, o Obs) string {
 	var sb strings.Builder
 	sb.WriteString(in.Fin.Kind)
+	if in.Fin.Kind == "save_slice" {
+		sb.WriteString(":" + slicePattern(in))
+	}
 	if in.Fin.Kind == "create_oc" {
 		sb.WriteString(":" + in.Fin.Rule)
 		if in.Fin.OCWhere != nil {
@@ -817,6 +916,9 @@ func nontrivial(in Input, o Obs) bool {
 	switch in.Fin.Kind {
 	case "save", "create_oc":
 		return in.Fin.Val.ID != 0 && findRow(in.Tbl, in.Fin.Val.ID) != nil
+	case "save_slice":
+		p := slicePattern(in)
+		return strings.Contains(p, "z") && strings.ContainsAny(p, "sfd")
 	}
 	hasA := false
 	conds := len(in.Fin.Inline)
@@ -855,6 +957,9 @@ func main() {
 			}
 		}
 		out.Count("finisher", fk)
+		if in.Fin.Kind == "save_slice" {
+			out.Count("slice_pattern(s=stored key,d=soft-deleted,f=fresh key,z=zero key)", slicePattern(in))
+		}
 		out.Count("table_size", fmt.Sprint(len(in.Tbl)))
 		out.Count("chain_len", fmt.Sprint(len(in.Chain)))
 		ns := 0
@@ -959,8 +1064,13 @@ func main() {
 			if o.Setup == "" {
 				state = o.Tbl
 			}
+			if in.Fin.Kind == "save_slice" && o.Err == "" {
+				lastSlice = o.Rets
+			} else if r.Chance(1, 3) {
+				lastSlice = nil
+			}
 		}
 	}
-	out.Extra["rule"] = "a case is ONE step on a table of 0..n rows over keys 1..4 (+ rowid-assigned keys): Save(v) | Create+OnConflict{DoNothing, DoUpdates(subset of name,age,email,updated_at,deleted_at), UpdateAll}(v), optionally conditional (OnConflict.Where = stored age < k on DoUpdates/UpdateAll, OnConflict.TargetWhere = age < k; colliding rows on both sides of the condition) | FirstOrInit | FirstOrCreate, preceded by a chain of Where(struct|map|raw 'age > ?') / Attrs / Assign (struct, map in column or field spelling, key-value; 1-2 arguments) in any order with Session(&Session{}) / WithContext inserted at chain positions; steps are chained into histories of 6..12 steps on the evolving table with soft/hard deletions in between; v is fresh (key 0 or 1..4) or a previously stored row edited. Session/WithContext are inserted at EVERY chain position, also after Attrs/Assign (stream session-after-attrs forces that shape, the fixed finding clone-drops-attrs). Domain: at most one Attrs and one Assign per chain, key-value form alone, two-argument forms in column spelling, Attrs/Assign keys among name/age/email, type-correct values, one inline condition. distinct = distinct (finisher, rule+cols, collision kind, chain form, inline form, RowsAffected, writes, error, table size); non-trivial = the value's key collides with a stored row (Save/upsert) or the chain has a condition and a non-empty Attrs/Assign on a non-empty table (FirstOr*)."
+	out.Extra["rule"] = "a case is ONE step on a table of 0..n rows over keys 1..4 (+ rowid-assigned keys): Save(v) | Save(&slice of 2-4 values mixing stored keys, fresh keys and zero keys in any order; the slice handed back is compared element by element and is saved again by a later step; RETURNING dialect) | Create+OnConflict{DoNothing, DoUpdates(subset of name,age,email,updated_at,deleted_at), UpdateAll}(v), optionally conditional (OnConflict.Where = stored age < k on DoUpdates/UpdateAll, OnConflict.TargetWhere = age < k; colliding rows on both sides of the condition) | FirstOrInit | FirstOrCreate, preceded by a chain of Where(struct|map|raw 'age > ?') / Attrs / Assign (struct, map in column or field spelling, key-value; 1-2 arguments) in any order with Session(&Session{}) / WithContext inserted at chain positions; steps are chained into histories of 6..12 steps on the evolving table with soft/hard deletions in between; v is fresh (key 0 or 1..4) or a previously stored row edited. Session/WithContext are inserted at EVERY chain position, also after Attrs/Assign (stream session-after-attrs forces that shape, the fixed finding clone-drops-attrs). Domain: at most one Attrs and one Assign per chain, key-value form alone, two-argument forms in column spelling, Attrs/Assign keys among name/age/email, type-correct values, one inline condition. distinct = distinct (finisher, rule+cols, collision kind, chain form, inline form, RowsAffected, writes, error, table size); non-trivial = the value's key collides with a stored row (Save/upsert) or the chain has a condition and a non-empty Attrs/Assign on a non-empty table (FirstOr*)."
 	lib.Must(out.Flush())
 }
